@@ -40,7 +40,12 @@ class World:
         self.dir.mkdir(parents=True)
         config.DATADIR = self.dir
         self.mins = mins
-        self.servers = {s: pc_sched.Server(s, mins, ofx_server) for s in ("s1", "s2")}
+        # s2: another host; s3: the same host as s1, another path (two institutions at one provider);
+        # s4: the same host and path, another port
+        self.servers = {"s1": pc_sched.Server("s1", mins, ofx_server),
+                        "s2": pc_sched.Server("s2", mins, ofx_server),
+                        "s3": pc_sched.Server("s3", mins, ofx_server, url="https://s1.invalid/other/ofx"),
+                        "s4": pc_sched.Server("s4", mins, ofx_server, url="https://s1.invalid:8443/ofx")}
         self.sched = pc_sched.Sched(self.dir)
         self.events = []
         self.n = 0
@@ -183,10 +188,13 @@ def detect(ctx, mins):
             variant = "atomic"
         else:
             raise MachineryError("unmodelled write protocol: %r" % ops)
-        # same ORG/FID, another server URL: same cache file?
-        c2 = w.client("s2")
-        w.run_call("t2", c2, "s2", "newer")
-        samekey = len(w.cachefile()) == 1
+        # same ORG/FID, another server URL (other host / same host other path / other port): same cache file?
+        samekey = False
+        for i, other in enumerate(("s2", "s3", "s4")):
+            before = len(w.cachefile())
+            w.run_call("t2%d" % i, w.client(other), other, "newer")
+            if len(w.cachefile()) == before:
+                samekey = True
         ops2 = w.run_call("t3", c1, "s1", "bumpnewer")
     finally:
         w.sched.uninstall()
@@ -437,7 +445,7 @@ def explore(ctx, mins, rnd, quick):
                  lambda w, order=order, pre=pre: interleave(w, order, pre))
     # S4: pairs of clients with equal / different ORG, FID, URL
     for orgfid in ((("ORG", "FID"), ("ORG", "FID")), ((None, None), (None, None)), (("ORG", "F1"), ("ORG", "F2")), (("O1", "FID"), ("O2", "FID"))):
-        for srv2 in ("s1", "s2"):
+        for srv2 in ("s1", "s2", "s3", "s4"):
             for kinds in (("newer", "uptodate"), ("newer", "newer", "uptodate"), ("bumpnewer", "older"), ("newer", "error", "uptodate")):
                 def body(w, orgfid=orgfid, srv2=srv2, kinds=kinds):
                     a = w.client("s1", org=orgfid[0][0], fid=orgfid[0][1])
